@@ -36,9 +36,13 @@ def _is_invert(e):
 
 def check_exact_lookup(p, report, rule):
     enc = p.get_class("ExtLabelEncoder")
-    tf = enc.methods.get("transform") if enc else None
-    if tf is None:
+    tf0 = enc.methods.get("transform") if enc else None
+    if tf0 is None:
         raise AnalysisError("ExtLabelEncoder.transform vanished")
+    # normal form: a transform that delegates to a shared private helper (with the lookup passed as a lambda)
+    from ..index import FuncInfo
+    tf = FuncInfo(tf0.name, expand_delegation(p, tf0), tf0.module, cls=tf0.cls, parent=tf0.parent)
+    tf.qual = tf0.qual
     stores = [n for n in ast.walk(tf.node) if isinstance(n, ast.Assign) and isinstance(n.targets[0], ast.Subscript)
               and not (isinstance(n.value, ast.Constant)) and not (isinstance(n.value, ast.UnaryOp))]
     k = 0
